@@ -47,6 +47,8 @@ def gen_part(rng, tok, p_exc=0.0, kinds=("fail", "error"), p_write=0.3):
     if rng.random() < 0.3:
         # ("noframes" takes effect in clean-ups only: a built-in registered with addCleanup fails)
         part["excStyle"] = rng.choice(["cause", "context", "unhashable", "unhashable-cause", "syntax", "noframes", "nomsg"])
+    if rng.random() < 0.03:
+        part["slow"] = rng.choice([60, 75.5, 3600])       # this part of the test takes a minute or more (clock moved)
     return part
 
 
@@ -184,6 +186,9 @@ def gen_layers(rng, n, with_unit=True, p_fault=0.25, allow_notimpl=True):
             # the dotted name of this layer also designates another object of an imported module
             lay["module"], lay["name"] = "wrt", rng.choice(["Base", "LayerError", "LAYERS"])
         lay["excStyle"] = rng.choice([None, None, "cause", "context", "unhashable", "unhashable-cause", "syntax", "attr-hook"])
+        if rng.random() < 0.12:
+            # a hook that takes a minute or more (the world moves the clock instead of sleeping)
+            lay[rng.choice(["slowSetUp", "slowTearDown"])] = rng.choice([60, 61.5, 75, 119.9995, 3600, 86400.25])
         if lay["setUp"] and rng.random() < p_fault * 0.5:
             lay["setUpRaises"] = rng.choice([[0], [0], [1], [999999]])
         if lay["tearDown"] and rng.random() < p_fault:
@@ -250,7 +255,12 @@ def gen_world(rng, n_layers=None, tests_per_layer=(0, 4), kinds=None, p_fault=0.
         # not an Exception (a module calling sys.exit() when a dependency is missing)
         modules["pz.tests"] = {"suites": [], "importError": rng.choice(
             [True, True, "sysexit0", "sysexit3", "base", "suite:error", "suite:sysexit0"])}
-    return {"layers": layers, "tests": tests, "modules": modules}
+    world = {"layers": layers, "tests": tests, "modules": modules}
+    if rng.random() < 0.12:
+        # the code under test leaves an object that is not a string on sys.path (a pathlib.Path: legal, the import
+        # system skips it) - from the moment the test modules are imported
+        world["sysPathObject"] = True
+    return world
 
 
 def gen_opts(rng, allow=("repeat", "stop", "buffer", "j", "verbose", "shuffle")):
